@@ -193,6 +193,22 @@ func (o *OuterCancel) RLock(ctx context.Context) (context.Context, context.Cance
 	select {
 	case <-o.closeCh:
 		return nil, nil, errLockClosed
+	case <-ctx.Done():
+		// The request has been handed over but not answered yet (it may still
+		// sit in the request channel behind a request the Run loop is busy
+		// with): a waiter whose context ends stops waiting. Whatever the Run
+		// loop later grants for this request is released right away, so the
+		// failed acquisition holds nothing.
+		go func() {
+			select {
+			case resp := <-h.respCh:
+				if resp.cancel != nil {
+					resp.cancel()
+				}
+			case <-o.closeCh:
+			}
+		}()
+		return nil, nil, ctx.Err()
 	case resp := <-h.respCh:
 		return resp.rctx, resp.cancel, resp.err
 	}
